@@ -47,6 +47,8 @@ def io_workload(rng, prop):
         rng.shuffle(seqs)
         wl = {'kind': kind, 'profile': 'w60', 'shape': 'star', 'seqs': seqs, 'type': gen.T_UNDEF, 'gpo': -1.0, 'gpe': -1.0, 'tgpe': -1.0}
         wl['names'] = gen.gen_names(rng, n)
+    elif mode == 1 and rng.random() < 0.25:
+        wl = gen.gen_workload(rng, profile=rng.choice(['manylines', 'many', 'boundary']))
     else:
         wl = gen.gen_workload(rng, weights=[15, 45, 25, 5, 2, 4, 4])
     n = len(wl['seqs'])
